@@ -3,14 +3,14 @@ import AwsVerif.Proofs.C06.Ops
 namespace AwsVerif.Proofs.C06
 open AwsVerif.Heap
 
-structure GInv (g : G) : Prop where
-  q : QInv g.q g.owner g.ref
+structure GInv (c : Cmp) (g : G) : Prop where
+  q : QInv c g.q g.owner g.ref
   nodup : g.ref.Nodup
   freshRef : ∀ e ∈ g.ref, e.uid < g.next
   freshOwner : ∀ h e, g.owner h = some e → e.uid < g.next
   size_le : g.q.items.size ≤ g.next
 
-theorem qinv_init_dynamic : QInv initDynamic (fun _ => none) [] := by
+theorem qinv_init_dynamic (c : Cmp) : QInv c initDynamic (fun _ => none) [] := by
   refine ⟨⟨?_, ?_, ?_, ?_⟩, ?_, ?_⟩
   · simp [BpOK, initDynamic]
   · intro h i hh; simp [initDynamic] at hh
@@ -19,7 +19,7 @@ theorem qinv_init_dynamic : QInv initDynamic (fun _ => none) [] := by
   · intro i _ hi; simp [initDynamic] at hi
   · intro c hc; simp [initDynamic] at hc
 
-theorem qinv_init_static (c : Nat) : QInv (initStatic c) (fun _ => none) [] := by
+theorem qinv_init_static (c : Cmp) (cp : Nat) : QInv c (initStatic cp) (fun _ => none) [] := by
   refine ⟨⟨?_, ?_, ?_, ?_⟩, ?_, ?_⟩
   · simp [BpOK, initStatic]
   · intro h i hh; simp [initStatic] at hh
@@ -28,30 +28,30 @@ theorem qinv_init_static (c : Nat) : QInv (initStatic c) (fun _ => none) [] := b
   · intro i _ hi; simp [initStatic] at hi
   · intro c' _; simp [initStatic]
 
-theorem ginv_init {q0 : PQ} (h : q0 = initDynamic ∨ ∃ c, q0 = initStatic c) : GInv (G.init q0) := by
-  have hq : QInv q0 (fun _ => none) [] := by
-    rcases h with rfl | ⟨c, rfl⟩
-    · exact qinv_init_dynamic
-    · exact qinv_init_static c
+theorem ginv_init (c : Cmp) {q0 : PQ} (h : q0 = initDynamic ∨ ∃ cp, q0 = initStatic cp) : GInv c (G.init q0) := by
+  have hq : QInv c q0 (fun _ => none) [] := by
+    rcases h with rfl | ⟨cp, rfl⟩
+    · exact qinv_init_dynamic c
+    · exact qinv_init_static c cp
   have hs : q0.items.size = 0 := by
-    rcases h with rfl | ⟨c, rfl⟩ <;> rfl
+    rcases h with rfl | ⟨cp, rfl⟩ <;> rfl
   exact ⟨hq, List.nodup_nil, (by intro e he; cases he), (by intro h e he; cases he), (by simp [G.init, hs])⟩
 
-theorem size_eq_length {g : G} (h : GInv g) : g.q.items.size = g.ref.length := by
+theorem size_eq_length {c : Cmp} {g : G} (h : GInv c g) : g.q.items.size = g.ref.length := by
   have := h.q.frame.perm.length_eq
   simpa using this
 
-theorem pop_eq {q : PQ} (h : q.items.size ≠ 0) : pop q = removeNode q 0 := by
+theorem pop_eq {c : Cmp} {q : PQ} (h : q.items.size ≠ 0) : pop c q = removeNode c q 0 := by
   unfold pop; simp [h]
 
-theorem pop_empty {q : PQ} (h : q.items.size = 0) : pop q = (q, .error .empty) := by
+theorem pop_empty {c : Cmp} {q : PQ} (h : q.items.size = 0) : pop c q = (q, .error .empty) := by
   unfold pop; simp [h]
 
-theorem gstep_next_le (g : G) (op : Op) : (gstep g op).1.next ≤ g.next + 1 := by
+theorem gstep_next_le (c : Cmp) (g : G) (op : Op) : (gstep c g op).1.next ≤ g.next + 1 := by
   cases op <;> simp only [gstep] <;> (repeat' split) <;> simp
 
-theorem gstep_inv {g : G} {op : Op} (h : GInv g) (hn : g.next + 1 < 2^63) (hl : legalOp g op = true) :
-    GInv (gstep g op).1 := by
+theorem gstep_inv {c : Cmp} (hc : CmpOK c) {g : G} {op : Op} (h : GInv c g) (hn : g.next + 1 < 2^63) (hl : legalOp g op = true) :
+    GInv c (gstep c g op).1 := by
   have hsz : g.q.items.size < 2^63 := by have := h.size_le; omega
   cases op with
   | push k ho =>
@@ -59,7 +59,7 @@ theorem gstep_inv {g : G} {op : Op} (h : GInv g) (hn : g.next + 1 < 2^63) (hl : 
       intro h0 e; subst e; simpa [legalOp] using hl
     have hfo : ∀ x e', ho ≠ some x → g.owner x = some e' → e' ≠ ⟨k, g.next⟩ := by
       intro x e' _ hx he; have := h.freshOwner x e' hx; rw [he] at this; simp at this
-    rcases pushRef_spec (e := ⟨k, g.next⟩) (h := ho) h.q hleg hfo with ⟨he, _⟩ | ⟨he, _⟩ | ⟨q', he, _, hq', hs', _⟩
+    rcases pushRef_spec hc (e := ⟨k, g.next⟩) (h := ho) h.q hleg hfo with ⟨he, _⟩ | ⟨he, _⟩ | ⟨q', he, _, hq', hs', _⟩
     · simp only [gstep, he]
       exact ⟨h.q, h.nodup, fun e he => Nat.lt_succ_of_lt (h.freshRef e he),
         fun x e hx => Nat.lt_succ_of_lt (h.freshOwner x e hx), Nat.le_succ_of_le h.size_le⟩
@@ -88,9 +88,9 @@ theorem gstep_inv {g : G} {op : Op} (h : GInv g) (hn : g.next + 1 < 2^63) (hl : 
   | pop =>
     by_cases h0 : g.q.items.size = 0
     · simp only [gstep, pop_empty h0]; exact h
-    · obtain ⟨e, _, hr, hq', hs', _⟩ := removeNode_spec h.q h.nodup hsz (Nat.pos_of_ne_zero h0)
+    · obtain ⟨e, _, hr, hq', hs', _⟩ := removeNode_spec hc h.q h.nodup hsz (Nat.pos_of_ne_zero h0)
       simp only [gstep, pop_eq h0]
-      have : removeNode g.q 0 = ((removeNode g.q 0).1, .ok e) := by rw [← hr]
+      have : removeNode c g.q 0 = ((removeNode c g.q 0).1, .ok e) := by rw [← hr]
       rw [this]
       exact ⟨hq', h.nodup.erase e, fun x hx => h.freshRef x (List.mem_of_mem_erase hx), h.freshOwner,
         by simp only [hs']; have := h.size_le; omega⟩
@@ -101,9 +101,9 @@ theorem gstep_inv {g : G} {op : Op} (h : GInv g) (hn : g.next + 1 < 2^63) (hl : 
     | none => simp only [gstep, remove_stale hh]; exact h
     | some i =>
       obtain ⟨hi, _⟩ := live_bounds h.q hh
-      obtain ⟨e, _, hr, hq', hs', _⟩ := removeNode_spec h.q h.nodup hsz hi
+      obtain ⟨e, _, hr, hq', hs', _⟩ := removeNode_spec hc h.q h.nodup hsz hi
       simp only [gstep, remove_live h.q hh]
-      have : removeNode g.q i = ((removeNode g.q i).1, .ok e) := by rw [← hr]
+      have : removeNode c g.q i = ((removeNode c g.q i).1, .ok e) := by rw [← hr]
       rw [this]
       exact ⟨hq', h.nodup.erase e, fun x hx => h.freshRef x (List.mem_of_mem_erase hx), h.freshOwner,
         by simp only [hs']; have := h.size_le; omega⟩
@@ -111,8 +111,8 @@ theorem gstep_inv {g : G} {op : Op} (h : GInv g) (hn : g.next + 1 < 2^63) (hl : 
     simp only [gstep]
     exact ⟨clear_spec h.q, List.nodup_nil, (by intro e he; cases he), h.freshOwner, (by simp [clear])⟩
 
-theorem run_inv : ∀ (ops : List Op) (g : G), GInv g → g.next + ops.length < 2^63 → legal g ops = true →
-    GInv (run g ops) ∧ (run g ops).next ≤ g.next + ops.length := by
+theorem run_inv {c : Cmp} (hc : CmpOK c) : ∀ (ops : List Op) (g : G), GInv c g → g.next + ops.length < 2^63 → legal c g ops = true →
+    GInv c (run c g ops) ∧ (run c g ops).next ≤ g.next + ops.length := by
   intro ops
   induction ops with
   | nil => intro g h _ _; exact ⟨h, by simp [run]⟩
@@ -120,22 +120,22 @@ theorem run_inv : ∀ (ops : List Op) (g : G), GInv g → g.next + ops.length < 
     intro g h hn hl
     simp only [legal, Bool.and_eq_true] at hl
     simp only [List.length_cons] at hn
-    have h1 := gstep_inv (op := op) h (by omega) hl.1
-    have hle := gstep_next_le g op
-    have := ih (gstep g op).1 h1 (by omega) hl.2
+    have h1 := gstep_inv hc (op := op) h (by omega) hl.1
+    have hle := gstep_next_le c g op
+    have := ih (gstep c g op).1 h1 (by omega) hl.2
     simp only [run, List.length_cons]
     exact ⟨this.1, by omega⟩
 
-theorem reach_inv {g : G} (h : Reach g) : GInv g ∧ g.next + 1 < 2^63 := by
+theorem reach_inv {c : Cmp} (hc : CmpOK c) {g : G} (h : Reach c g) : GInv c g ∧ g.next + 1 < 2^63 := by
   obtain ⟨q0, ops, hq0, hlen, hleg, rfl⟩ := h
-  have := run_inv ops (G.init q0) (ginv_init hq0) (by simp [G.init]; omega) hleg
+  have := run_inv hc ops (G.init q0) (ginv_init c hq0) (by simp [G.init]; omega) hleg
   refine ⟨this.1, ?_⟩
   have h2 := this.2
   have h3 : (G.init q0).next = 0 := rfl
   omega
 
 /-- a handle is in the queue exactly when the element it was last pushed with is still stored -/
-theorem live_iff {g : G} (h : GInv g) (x : Nat) :
+theorem live_iff {c : Cmp} {g : G} (h : GInv c g) (x : Nat) :
     (g.q.handles x).isSome ↔ ∃ e, g.owner x = some e ∧ e ∈ g.ref := by
   constructor
   · intro hs
@@ -149,7 +149,7 @@ theorem live_iff {g : G} (h : GInv g) (x : Nat) :
     | none => exact absurd hm (h.q.frame.dead x e hh ho)
     | some i => rfl
 
-theorem tracks_elem {g : G} (h : GInv g) {x i : Nat} (hh : g.q.handles x = some i) :
+theorem tracks_elem {c : Cmp} {g : G} (h : GInv c g) {x i : Nat} (hh : g.q.handles x = some i) :
     ∃ e, g.owner x = some e ∧ g.q.items[i]? = some e ∧ e ∈ g.ref ∧ i < g.q.items.size := by
   have ht := h.q.frame.tracks x i hh
   obtain ⟨hlt, _⟩ := live_bounds h.q hh
